@@ -1635,6 +1635,12 @@ func runScenario(seed int64, n int, out *bufio.Writer, kind string, suffix strin
 		}
 		h.settle(40, 0)
 		h.connUp(t)
+		h.settle(60, 0)
+		// the device restarts (empty, its connections are gone) and is reachable again before any controller has looked:
+		// the old master's relation disappears while a new one is already there - the mastership must still begin a
+		// new term, or nothing is re-pushed to the empty device
+		h.devRestart(t)
+		h.connUp(t)
 		nev = r.Intn(2)
 	}
 	if kind == "atomic" && n%16 == 9 {
